@@ -73,12 +73,14 @@ class IndexScenario(ChangeScenario):
             raise RuntimeError(code)
         async def idx_plain(name: str, **_: Any) -> Any:
             return {'all': name}          # a second index of the same kind that never fails: untouched by the first one's errors
-        kopf.index('kopfexamples', id='idx_plain', registry=reg, labels={'idx': 'yes'})(idx_plain)
+        lone = bool(self.params.get('lone_index'))      # the index under test is the only one of its kind
+        if not lone:
+            kopf.index('kopfexamples', id='idx_plain', registry=reg, labels={'idx': 'yes'})(idx_plain)
         kopf.index('kopfexamples', id='idx', registry=reg, labels={'idx': 'yes'})(idx)
 
         async def probe(**kw: Any) -> None:
             env.log('probe', name=kw['name'], etype=kw['type'], rv=kw['body'].metadata.get('resourceVersion'),
-                    plain=sorted(kw['idx_plain'].get('all', [])), **snapshot(kw['idx']))
+                    plain=sorted(kw['idx_plain'].get('all', [])) if not lone else None, **snapshot(kw['idx']))
         kopf.on.event('kopfexamples', id='ev', registry=reg)(probe)
         return reg
 
@@ -327,6 +329,9 @@ def run(tier: str, seed: int) -> CheckResult:
     # objects that yield EQUAL values under one key (the index is a multiset per key: one entry per object)
     hist2 += [build_index(h, 0.5, delays=False, early_user=False, time_dev=False) for h in histories(4, ['a', 'b'], codes=['same', 'other', 'k1'])
               if sum(1 for a in h if a[0] == 'set') >= 3]
+    # the index under test alone (no always-matching sibling index of the kind): exclusions after errors hold across further events
+    hist2 += [build_index(h, sp, lone_index=True, delays=False, early_user=False, time_dev=False) for h in histories(3, ['a', 'b'], codes=['k1', 'temp', 'perm', 'none'])
+              for sp in (0.5, 3.0) if any(a[0] == 'set' and a[2] in ('temp', 'perm') for a in h)]
     deep = [] if tier == 'quick' else [build_index(h, 0.5, delays=False, early_user=False, time_dev=False)
                                        for h in histories(4, ['a', 'b']) if sum(1 for a in h if a[0] == 'set') <= 3 and any(a[0] in ('delete', 'label') for a in h)]
     barrier = [BarrierScenario(n1=n1, n2=n2, slow_index=slow, handlers_on_second=h2)
